@@ -144,6 +144,9 @@ func runFixed(c *Ctx, r *Reporter) {
 			if x.Call.StaticCallee() == fixedSSA {
 				return true, "fixedType(…)"
 			}
+			if fixedHelper(x.Call.StaticCallee(), fixedSSA, 0) {
+				return true, "result of " + x.Call.StaticCallee().Name() + ", which returns fixedType(…) or nil on every path"
+			}
 			return false, "result of " + x.Call.String()
 		case *ssa.UnOp:
 			if g, ok := x.X.(*ssa.Global); ok && internedTypes[g.Name()] {
@@ -226,7 +229,10 @@ func okSourceRec(v ssa.Value, fixedSSA *ssa.Function, depth int) (bool, string) 
 	}
 	switch x := v.(type) {
 	case *ssa.Call:
-		return x.Call.StaticCallee() == fixedSSA, ""
+		if x.Call.StaticCallee() == fixedSSA {
+			return true, ""
+		}
+		return fixedHelper(x.Call.StaticCallee(), fixedSSA, depth), ""
 	case *ssa.UnOp:
 		if g, ok := x.X.(*ssa.Global); ok && internedTypes[g.Name()] {
 			return true, ""
@@ -242,6 +248,21 @@ func okSourceRec(v ssa.Value, fixedSSA *ssa.Function, depth int) (bool, string) 
 		return true, ""
 	}
 	return false, ""
+}
+
+// fixedHelper: a function of the same package with one result, every return of which hands out a fixed type (or nil):
+// `fd.ReturnType = p.parseReturnType()` with parseReturnType ending in `return fixedType(t)`.
+func fixedHelper(f *ssa.Function, fixedSSA *ssa.Function, depth int) bool {
+	if f == nil || fixedSSA == nil || f.Pkg != fixedSSA.Pkg || len(f.Blocks) == 0 || f.Signature.Results().Len() != 1 || depth > 2 {
+		return false
+	}
+	rets := returnsOf(f)
+	for _, ret := range rets {
+		if ok, _ := okSourceRec(ret.Results[0], fixedSSA, depth+2); !ok {
+			return false
+		}
+	}
+	return len(rets) > 0
 }
 
 // wholeStructCopySource: for `x := *src`, the pointer src.
